@@ -24,7 +24,8 @@ fn gen_size() -> usize {
         3 => 4096,
         4 => 4097,
         5 => 8192,
-        6 => [1 << 20, 2 << 20, (2 << 20) + 1, (2 << 20) + 4096, (2 << 20) + 4097, (4 << 20) - 1, (3 << 20) + 100][c.a(7) as usize],
+        // (the GiB sizes are never touched: address space only)
+        6 => [1 << 20, 2 << 20, (2 << 20) + 1, (2 << 20) + 4096, (2 << 20) + 4097, (4 << 20) - 1, (3 << 20) + 100, 1 << 30, 2 << 30, (1 << 30) + 4096][c.a(10) as usize],
         _ => 1 + c.a(3 * 4096) as usize,
     }
 }
@@ -313,7 +314,34 @@ fn one_request(step: usize) -> (String, bool) {
                 fill_file(f, *len);
             }
             let fo = file.as_ref().map(|(f, _, _)| FileOffset::new(f.try_clone().expect("dup"), offset));
+            // now and then the file changes its length after the FileOffset was made: what counts is the
+            // file as it is when the region is built
+            let mut file = file;
+            let mut resized = false;
+            if let Some((f, len, true)) = &mut file {
+                if cx().a(5) == 0 {
+                    let end = offset.saturating_add(size as u64);
+                    let newlen = match cx().a(5) {
+                        0 => end.saturating_sub(1),
+                        1 => end,
+                        2 => end.saturating_add(4096),
+                        3 => 0,
+                        _ => cx().a(3 * 4096) as u64,
+                    }
+                    .min(1 << 24);
+                    // SAFETY: plain syscall on our own descriptor.
+                    if unsafe { libc::ftruncate(f.as_raw_fd(), newlen as libc::off_t) } == 0 {
+                        if newlen != *len {
+                            resized = true;
+                            cx().count("probe.file_resized_after_the_file_offset_was_made");
+                        }
+                        *len = newlen;
+                        fill_file(f, newlen);
+                    }
+                }
+            }
             let desc = format!("{}(size {}, prot {:#x}, flags {:#x}{}){}", ["build", "build", "build", "from_file", "new", "build"][(form as usize - 2).min(5)], size, prot, flags, match &file { Some((_, len, seek)) => format!(", file of {} bytes{} at offset {:#x}", len, if *seek { "" } else { " (unseekable)" }, offset), None => String::new() }, if inject { " [mmap made to fail]" } else { "" });
+            let desc = if resized { format!("{} [file resized after the FileOffset was made]", desc) } else { desc };
             if inject {
                 cx().sys.fail_mmap_at = Some((cx().sys.mmap_calls, [libc::ENOMEM, libc::EACCES, libc::EAGAIN][cx().a(3) as usize]));
             }
